@@ -6,6 +6,8 @@ if ! git diff --quiet; then echo "REPO DIRTY"; exit 9; fi
 if ! git apply --check "$patch" 2>/dev/null; then echo "PATCH-DOES-NOT-APPLY"; exit 8; fi
 git apply "$patch"
 (cd /repo && GOFLAGS=-mod=mod GOPROXY=off go build ./... ) || { echo "MUTANT-DOES-NOT-BUILD"; git checkout -- .; exit 7; }
+cp /verif/evidence/$pid.json /tmp/evidence_keep_$pid.json 2>/dev/null
 cd /verif && ./check $pid --tier $tier > /tmp/mut_eval_$pid.log 2>&1; rc=$?
+cp /tmp/evidence_keep_$pid.json /verif/evidence/$pid.json 2>/dev/null
 cd /repo && git checkout -- . && git clean -fdq -- . >/dev/null 2>&1
 echo "rc=$rc"; grep -E "VIOLATION|CHECK-ERROR|counterexample:" /tmp/mut_eval_$pid.log | cut -c1-300 | head -6
